@@ -285,6 +285,9 @@ def r19d(ctx, P):
     ctx.floor(rid, n, 1, "field_lengths_for calls inside a loop over segments (rescore_hits)")
 
 
+THOROUGH_FEATURES = ['r19a', 'r19b', 'r19c', 'r19d']
+
+
 def run(ctx, progs):
     P = progs.get("default")
     r19d(ctx, P)
